@@ -61,6 +61,10 @@ func (m *machine) sig(ins instr, what string) string {
 		// failures that only a previously used receiver provokes get their own family of signatures
 		return "C06/" + ins.op + "/" + kindClass(ins.kind) + "/reused-receiver/" + what
 	}
+	if strings.Contains(ins.dest, "@") {
+		// the receiver's pre-allocated level / degree is what matters
+		return "C06/" + ins.op + "/" + kindClass(ins.kind) + "/receiver-" + ins.dest + "/" + what
+	}
 	return "C06/" + ins.op + "/" + kindClass(ins.kind) + "/" + what
 }
 
@@ -131,6 +135,56 @@ func (m *machine) freshOut() *rlwe.Ciphertext {
 	return ckks.NewCiphertext(m.e.x.Params, 1, m.e.maxLvl)
 }
 
+// receiver builds the destination of an out-of-place call and returns the level it was allocated at (a large
+// number when the operation allocates or reuses op0). Forms:
+//
+//	out          fresh, degree 1, top level           reused        used before: degree 2, top level, stale content
+//	out@res      fresh, degree 1, level(op0) - primes per rescale (the level a rescale results in)
+//	out@res1     one level above that                 out@in        level(op0)
+//	out@zero     level 0                              reused@res    degree 2 with stale content at level(op0) - primes per rescale
+//
+// Operations that document the working level min(op0, op1, opOut) (rlwe.InitOutputBinaryOp / UnaryOp, Automorphism,
+// Relinearize) produce their result at the lower of the two levels; Rescale and RescaleTo resize the receiver to the
+// level they document whatever it had.
+func (m *machine) receiver(dest string, a *reg) (ct *rlwe.Ciphertext, level int) {
+	const none = 1 << 30
+	clamp := func(l int) int {
+		if l < 0 {
+			return 0
+		}
+		if l > m.e.maxLvl {
+			return m.e.maxLvl
+		}
+		return l
+	}
+	switch dest {
+	case "inplace", "nokeys":
+		return a.ct, none
+	case "out":
+		return m.freshOut(), m.e.maxLvl
+	case "reused":
+		return m.e.stale.CopyNew(), m.e.maxLvl
+	case "out@res":
+		l := clamp(a.level - m.e.k)
+		return ckks.NewCiphertext(m.e.x.Params, 1, l), l
+	case "out@res1":
+		l := clamp(a.level - m.e.k + 1)
+		return ckks.NewCiphertext(m.e.x.Params, 1, l), l
+	case "out@in":
+		return ckks.NewCiphertext(m.e.x.Params, 1, a.level), a.level
+	case "out@zero":
+		return ckks.NewCiphertext(m.e.x.Params, 1, 0), 0
+	case "reused@res":
+		l := clamp(a.level - m.e.k)
+		st := m.e.stale.CopyNew()
+		st.Resize(2, l)
+		return st, l
+	}
+	panic("harness: dest " + dest)
+}
+
+func isReused(dest string) bool { return strings.HasPrefix(dest, "reused") }
+
 // operand resolution ------------------------------------------------------------------------------------
 
 type operand struct {
@@ -169,6 +223,9 @@ func (m *machine) operand(kind string, acc bool) operand {
 			return operand{class: "vec", vec: v, val: v.val}
 		}
 	}
+	if kind == "invalid-type" {
+		return operand{class: "invalid", val: int32(3)} // not in the documented list of operand types
+	}
 	panic("harness: unknown operand kind " + kind)
 }
 
@@ -184,6 +241,9 @@ func (m *machine) step(ins instr) int {
 	e, c := m.e, m.c
 	nb := e.x.NB
 	ev := m.ev
+	if ins.dest == "nokeys" {
+		ev = m.e.evNone.ShallowCopy() // an evaluator that was given no evaluation key at all
+	}
 	a := m.r[0]
 	m.path = append(m.path, ins.name())
 	m.defect = ""
@@ -196,25 +256,25 @@ func (m *machine) step(ins instr) int {
 	// destination plumbing for op(a, x) -> R0
 	var out *rlwe.Ciphertext
 	run2 := func(inplace func(out *rlwe.Ciphertext) error, newf func() (*rlwe.Ciphertext, error)) (error, bool) {
-		switch ins.dest {
-		case "inplace":
-			out = a.ct
-			return m.call(ins, func() error { return inplace(a.ct) })
-		case "out":
-			out = m.freshOut()
-			return m.call(ins, func() error { return inplace(out) })
-		case "reused":
-			out = m.e.stale.CopyNew()
-			return m.call(ins, func() error { return inplace(out) })
-		case "new":
+		if ins.dest == "new" {
 			return m.call(ins, func() (err error) { out, err = newf(); return })
 		}
-		panic("harness: dest " + ins.dest)
+		out, _ = m.receiver(ins.dest, a)
+		return m.call(ins, func() error { return inplace(out) })
 	}
 
 	n := *a // the model of the result, filled below
 	n.v = a.v
 	n.scale = a.scale
+	// lv: the level op0 contributes to operations working at min(op0, op1, opOut)
+	lv := a.level
+	if ins.dest != "new" && ins.dest != "acc" && ins.dest != "-" && ins.dest != "nokeys" {
+		if _, rl := m.receiver(ins.dest, a); rl < lv {
+			lv = rl
+			c.Cover("receiver", "lowers-the-level")
+		}
+	}
+	n.level = lv
 
 	switch ins.op {
 	case "Swap":
@@ -239,6 +299,9 @@ func (m *machine) step(ins instr) int {
 		if pan {
 			return stViolated
 		}
+		if x.class == "invalid" {
+			return m.expectError(ins, err, "operand type not accepted")
+		}
 		if err != nil {
 			return m.unexpectedError(ins, err)
 		}
@@ -251,9 +314,9 @@ func (m *machine) step(ins instr) int {
 		switch x.class {
 		case "ct", "pt":
 			b := x.reg
-			n.level = min(a.level, b.level)
+			n.level = min(lv, b.level)
 			n.degree = max(a.degree, b.degree)
-			if ins.dest == "reused" && n.degree < 2 {
+			if isReused(ins.dest) && n.degree < 2 {
 				// Add/Sub resize opOut to max(op0, op1, opOut) degree and never touch the extra component
 				m.defect = "C06/Add-Sub/larger-degree-receiver-keeps-old-component"
 			}
@@ -294,7 +357,7 @@ func (m *machine) step(ins instr) int {
 	case "Mul", "MulRelin":
 		x := m.operand(ins.kind, false)
 		relin := ins.op == "MulRelin"
-		if (x.class == "vec" || (x.class == "scalar" && !x.k.isInt)) && a.level-e.k+1 < 0 {
+		if (x.class == "vec" || (x.class == "scalar" && !x.k.isInt)) && lv-e.k+1 < 0 {
 			// 128-bit mode at level 0: the constant is to be scaled by two primes but only one is left;
 			// the evaluator indexes SubRings[level-1] (panic) instead of returning an error
 			m.defect = sigConstLevel0
@@ -317,6 +380,12 @@ func (m *machine) step(ins instr) int {
 			c.Cover("rejected", "Mul:level too low to scale the constant by two primes")
 			return stEnd
 		}
+		if x.class == "invalid" {
+			return m.expectError(ins, err, "operand type not accepted")
+		}
+		if ins.dest == "nokeys" && relin && x.class == "ct" && a.degree+x.reg.degree <= 2 && a.degree <= 1 && x.reg.degree <= 1 {
+			return m.expectError(ins, err, "no relinearization key")
+		}
 		switch x.class {
 		case "ct", "pt":
 			b := x.reg
@@ -330,7 +399,7 @@ func (m *machine) step(ins instr) int {
 			if err != nil {
 				return m.unexpectedError(ins, err)
 			}
-			n.level = min(a.level, b.level)
+			n.level = min(lv, b.level)
 			n.scale = ratMul(a.scale, b.scale) // documented: product of the scales
 			n.v = cklib.Map2(a.v, b.v, func(p, q cklib.C) cklib.C { return p.Mul(q) })
 			n.eps = mulErr(a.v.MaxAbs(), a.eps, b.v.MaxAbs(), b.eps) // ε_mul = |v1|ε2+|v2|ε1+ε1ε2 (tensoring is exact mod Q)
@@ -355,7 +424,7 @@ func (m *machine) step(ins instr) int {
 				c.Cover("scalar-path", "gaussian-integer")
 			} else {
 				// non-integer: constant scaled by the current prime(s); scale multiplied accordingly
-				F, ok := e.rescaleFactor(a.level)
+				F, ok := e.rescaleFactor(lv)
 				if !ok {
 					return m.forbidden(ins, "no prime left for constant scaling")
 				}
@@ -369,7 +438,7 @@ func (m *machine) step(ins instr) int {
 				return m.unexpectedError(ins, err)
 			}
 			// vector encoded at scale = current prime(s), then plaintext multiplication
-			F, ok := e.rescaleFactor(a.level)
+			F, ok := e.rescaleFactor(lv)
 			if !ok {
 				return m.forbidden(ins, "no prime left for constant scaling")
 			}
@@ -400,6 +469,9 @@ func (m *machine) step(ins instr) int {
 		if m.defect == sigConstLevel0 && err != nil {
 			c.Cover("rejected", "MulThenAdd:level too low to scale the constant by two primes")
 			return stEnd
+		}
+		if x.class == "invalid" {
+			return m.expectError(ins, err, "operand type not accepted")
 		}
 		prodV := func(q cklib.Vec) cklib.Vec {
 			return cklib.Map2(a.v, cklib.Map2(s.v, q, func(p, q cklib.C) cklib.C { return p.Mul(q) }), func(p, q cklib.C) cklib.C { return p.Add(q) })
@@ -532,6 +604,82 @@ func (m *machine) step(ins instr) int {
 			}
 		}
 
+	case "Refusal":
+		// one leaf per documented refusal that no other instruction reaches: the call must return an error (neither
+		// panic nor succeed). Operands are copies: the register file is not touched.
+		a0, b0 := a.ct.CopyNew(), m.r[1].ct.CopyNew()
+		nilMeta := func() *rlwe.Ciphertext { ct := m.freshOut(); ct.MetaData = nil; return ct }
+		var f func() error
+		switch ins.kind {
+		case "Add/opOut-metadata-nil":
+			f = func() error { return ev.Add(a0, b0, nilMeta()) }
+		case "Add/op1-metadata-nil":
+			f = func() error { b0.MetaData = nil; return ev.Add(a0, b0, m.freshOut()) }
+		case "Mul/opOut-metadata-nil":
+			f = func() error { return ev.Mul(a0, 0.5, nilMeta()) }
+		case "Rescale/opOut-metadata-nil":
+			f = func() error { return ev.Rescale(a0, nilMeta()) }
+		case "RescaleTo/opOut-metadata-nil":
+			f = func() error { return ev.RescaleTo(a0, e.x.Params.DefaultScale(), nilMeta()) }
+		case "Add/op0-flagged-not-NTT":
+			f = func() error { a0.IsNTT = false; return ev.Add(a0, b0, m.freshOut()) }
+		case "Mul/op0-flagged-not-NTT":
+			f = func() error { a0.IsNTT = false; return ev.Mul(a0, 2, m.freshOut()) }
+		case "Add/plaintext-not-batched":
+			f = func() error {
+				pt := e.ptv["pt-eq"].CopyNew()
+				pt.IsBatched = false
+				return ev.Add(a0, pt, m.freshOut())
+			}
+		case "RescaleTo/ciphertext-scale-zero":
+			f = func() error {
+				a0.Scale = rlwe.NewScale(0)
+				return ev.RescaleTo(a0, e.x.Params.DefaultScale(), m.freshOut())
+			}
+		case "MulThenAdd/op1-is-opOut":
+			f = func() error { return ev.MulThenAdd(b0, a0, a0) }
+		case "MulRelinThenAdd/op1-is-opOut":
+			f = func() error { return ev.MulRelinThenAdd(b0, a0, a0) }
+		case "MulRelinThenAdd/op0-is-opOut":
+			f = func() error { return ev.MulRelinThenAdd(a0, b0, a0) }
+		default:
+			panic("harness: refusal " + ins.kind)
+		}
+		err, pan := m.call(ins, f)
+		if pan {
+			return stViolated
+		}
+		return m.expectError(ins, err, ins.kind)
+
+	case "MulThenAddAlias":
+		// opOut == op0: documented as an error for ciphertext operands ("opOut = op0 or op1") and refused for
+		// constants that need scaling; with a Gaussian integer it is R0 += R0*c
+		var val rlwe.Operand
+		switch ins.kind {
+		case "ct":
+			val = m.r[1].ct
+		case "frac":
+			val = complex(0.5, 0)
+		case "gint":
+			val = 2
+		case "vec":
+			val = e.vecs[0].val
+		}
+		out = a.ct
+		err, pan := m.call(ins, func() error { return ev.MulThenAdd(a.ct, val, a.ct) })
+		if pan {
+			return stViolated
+		}
+		if ins.kind != "gint" {
+			return m.expectError(ins, err, "opOut == op0")
+		}
+		if err != nil {
+			return m.unexpectedError(ins, err)
+		}
+		three := cklib.NewC(3, 0)
+		n.v = cklib.Map1(a.v, func(p cklib.C) cklib.C { return p.Mul(three) })
+		n.eps = 3 * a.eps
+
 	case "Relinearize":
 		err, pan := run2(func(o *rlwe.Ciphertext) error { return ev.Relinearize(a.ct, o) },
 			func() (*rlwe.Ciphertext, error) { return ev.RelinearizeNew(a.ct) })
@@ -541,16 +689,22 @@ func (m *machine) step(ins instr) int {
 		if a.degree != 2 {
 			return m.expectError(ins, err, "input degree != 2")
 		}
+		if ins.dest == "nokeys" {
+			return m.expectError(ins, err, "no relinearization key")
+		}
 		if err != nil {
 			return m.unexpectedError(ins, err)
 		}
 		n.degree = 1
-		n.eps = a.eps + nb.KeySwitch(a.level)/a.sf()
+		n.eps = a.eps + nb.KeySwitch(lv)/a.sf()
 
 	case "Rotate", "Conjugate":
 		k := 1
 		if ins.kind == "k3" {
 			k = 3
+		}
+		if ins.kind == "k5-nokey" {
+			k = 5 // the evaluator holds keys for the rotations by 1 and 3 only
 		}
 		conj := ins.op == "Conjugate"
 		err, pan := run2(func(o *rlwe.Ciphertext) error {
@@ -570,12 +724,15 @@ func (m *machine) step(ins instr) int {
 		if conj && e.ci {
 			return m.expectError(ins, err, "Conjugate in the conjugate-invariant ring")
 		}
-		if ins.dest == "reused" {
+		if isReused(ins.dest) {
 			// "The method will return an error if either ctIn or opOut degree is not equal to 1": the reused receiver has degree 2
 			return m.expectError(ins, err, "automorphism into a degree != 1 receiver")
 		}
 		if a.degree != 1 {
 			return m.expectError(ins, err, "automorphism of a degree != 1 ciphertext")
+		}
+		if ins.dest == "nokeys" || ins.kind == "k5-nokey" {
+			return m.expectError(ins, err, "Galois key missing")
 		}
 		if err != nil {
 			return m.unexpectedError(ins, err)
@@ -585,17 +742,10 @@ func (m *machine) step(ins instr) int {
 		} else {
 			n.v = cklib.RotL(a.v, k)
 		}
-		n.eps = a.eps + nb.KeySwitch(a.level)/a.sf()
+		n.eps = a.eps + nb.KeySwitch(lv)/a.sf()
 
 	case "Rescale":
-		switch ins.dest {
-		case "inplace":
-			out = a.ct
-		case "reused":
-			out = m.e.stale.CopyNew()
-		default:
-			out = m.freshOut()
-		}
+		out, _ = m.receiver(ins.dest, a)
 		err, pan := m.call(ins, func() error { return ev.Rescale(a.ct, out) })
 		if pan {
 			return stViolated
@@ -620,21 +770,19 @@ func (m *machine) step(ins instr) int {
 			min = ratMul(e.delta, big.NewRat(3, 2))
 		case "min-default-squared":
 			min = ratMul(e.delta, e.delta)
+		case "min-zero":
+			min = new(big.Rat)
 		}
-		switch ins.dest {
-		case "inplace":
-			out = a.ct
-		case "reused":
-			out = m.e.stale.CopyNew()
-		default:
-			out = m.freshOut()
-		}
+		out, _ = m.receiver(ins.dest, a)
 		if m.rescaleToUnderflows(a.scale, a.level, min) {
 			m.defect = "C06/RescaleTo/loop-reaches-level-minus-one"
 		}
 		err, pan := m.call(ins, func() error { return ev.RescaleTo(a.ct, scaleOfRat(min), out) })
 		if pan {
 			return stViolated
+		}
+		if min.Sign() == 0 {
+			return m.expectError(ins, err, "minScale <= 0")
 		}
 		if a.level == 0 {
 			return m.expectError(ins, err, "level 0")
@@ -831,7 +979,7 @@ func (m *machine) oracle(ins instr) int {
 		m.fail(m.sig(ins, "level"), "%s at %v: level %d, documented %d", ins.name(), m.path, ct.Level(), r.level)
 		return stViolated
 	}
-	if ins.dest == "reused" && ct.Degree() == 2 && r.degree < 2 {
+	if isReused(ins.dest) && ct.Degree() == 2 && r.degree < 2 {
 		// rlwe.InitOutputBinaryOp documents degree = max(op0, op1, opOut): a larger receiver may keep its degree, but
 		// then its extra component must not change the value (judged below)
 		r.degree = 2
